@@ -102,6 +102,7 @@ type connEnv struct {
 
 type connOpts struct {
 	ackBatch int
+	compress int // Options.CompressThreshold; 0 means disabled (-1)
 }
 
 func newConnEnv(c *mon.Ctx, r *rand.Rand, o connOpts) *connEnv {
@@ -122,13 +123,16 @@ func newConnEnvClock(c *mon.Ctx, r *rand.Rand, o connOpts, mk func(*neo.Time) cl
 	if o.ackBatch == 0 {
 		o.ackBatch = 1
 	}
+	if o.compress == 0 {
+		o.compress = -1
+	}
 	e.conn = mtproto.New(func(context.Context) (transport.Conn, error) { return e.fc, nil }, mtproto.Options{
 		Key: e.key, Salt: e.salt, Clock: mk(e.clk), Random: &seededReader{r: rand.New(rand.NewPCG(r.Uint64(), r.Uint64()))},
 		Handler: e.h, Logger: e.lg,
 		AckBatchSize: o.ackBatch, AckInterval: 24 * time.Hour,
 		PingInterval: 24 * 365 * time.Hour, PingTimeout: time.Hour,
 		SaltFetchInterval: 24 * 365 * time.Hour, RetryInterval: 24 * time.Hour,
-		CompressThreshold: -1, DialTimeout: 10 * time.Minute,
+		CompressThreshold: o.compress, DialTimeout: 10 * time.Minute,
 	})
 	return e
 }
